@@ -218,6 +218,12 @@ class Counters(Contract):
             h.oblige(f"count.key-is-id-iff-duplicates[{Kn};dups={dups}]",
                      z3.BoolVal((key == id(v)) if dups else (key is v)))
         mm = NodeMultiplicityMapper()
+        # "number of distinct objects when duplicates are counted": the
+        # multiplicity mapper visits per object, whatever the kind
+        mkey = h.call(mm.get_cache_key, v) if K is not FunctionDefinition \
+            else h.call(mm.get_function_definition_cache_key, v)
+        h.oblige(f"count.multiplicity-key-is-the-object's-identity[{Kn}]",
+                 z3.BoolVal(mkey == id(v) and not (mkey is v)))
         h.call(mm.post_visit, v)
         want = {} if isinstance(v, DictOfNamedArrays) else {id(v): 1}
         h.oblige(f"count.multiplicity-adds-one[{Kn}]", z3.BoolVal(
